@@ -234,13 +234,15 @@ Definition num_neqb (a b : num) : bool := negb (num_eqb a b).
 
 (* one unmasked element; dd is the data type after the _Unsigned view.  When the scale
    factor is 1 and the offset 0 no arithmetic is done, and (handoff/C07-fix3-1.diff) the
-   element is converted to the type the arithmetic would have given. *)
+   element of a variable with only one of the two attributes is converted to the type the
+   arithmetic would have given; with both attributes it is cast to the scale factor's type,
+   which is what the netCDF4 library does. *)
 Definition unpack_elem (dd : dt) (s o : option (dt * num)) (x : num) : num :=
   match s, o with
   | Some (ts, sv), Some (to, ov) =>
     if num_neqb ov (Fin 0) || num_neqb sv (Fin 1) then
       add_num (promote (promote dd ts) to) (mul_num (promote dd ts) x sv) ov
-    else cast (promote (promote dd ts) to) x
+    else cast ts x                      (* as the netCDF4 library does *)
   | Some (ts, sv), None =>
     if num_neqb sv (Fin 1) then mul_num (promote dd ts) x sv else cast (promote dd ts) x
   | None, Some (to, ov) =>
@@ -250,7 +252,8 @@ Definition unpack_elem (dd : dt) (s o : option (dt * num)) (x : num) : num :=
 
 Definition unpack_dt (dd : dt) (s o : option (dt * num)) : dt :=
   match s, o with
-  | Some (ts, sv), Some (to, ov) => promote (promote dd ts) to
+  | Some (ts, sv), Some (to, ov) =>
+    if num_neqb ov (Fin 0) || num_neqb sv (Fin 1) then promote (promote dd ts) to else ts
   | Some (ts, sv), None => promote dd ts
   | None, Some (to, ov) => promote dd to
   | None, None => dd
